@@ -161,9 +161,11 @@ def run(tier, seed, replay=None):
                 "inserted left/right snakes, 15% wrong-handed straight cap/cup pairs, shuffled by "
                 "random legal exchanges to create obstructions on either side; both `left` settings; "
                 "non-trivial = at least one cap/cup pair removed")
-    rep.partial = ["index re-numbering invariant of unsnake over a whole obstruction list and "
-                   "termination are not proved; the functional comparison with the model's "
-                   "transcription exercises the re-numbering on every run"]
+    rep.partial = ["termination of the monoidal normal form that follows the snake loop is not "
+                   "proved (C06's gap); the snake loop itself (find_snake/unsnake with its index "
+                   "re-numbering over whole obstruction lists) is proved total, accepted step by "
+                   "step and snake-free at exit for the model, and the functional comparison with "
+                   "the model's transcription ties that model to the code on every run"]
     rep.lean = lean_obligations(PROP, thorough=(tier == "thorough"))
     n_diagrams = 150 if tier == "quick" else 6000
     rng = random.Random(seed)
